@@ -284,9 +284,9 @@ def _match(pat, node, binds):
 
 
 def _atomic(term):
-    """an identifier or a field projection `(f s)`"""
+    """an identifier, a field projection `(f s)` or an integer literal"""
     import re
-    return bool(re.fullmatch(r"[A-Za-z_][A-Za-z0-9_']*|\([A-Za-z_][A-Za-z0-9_']* s\)", term))
+    return bool(re.fullmatch(r"[A-Za-z_][A-Za-z0-9_']*|\([A-Za-z_][A-Za-z0-9_']* s\)|\(-?[0-9]+\)%Z", term))
 
 
 def _ind(text, n):
